@@ -261,7 +261,37 @@ def max_children(j):
     return max([m] + [max_children(c) for c in j if isinstance(c, list)])
 
 
+BUDGET_S = 4.0
+
+
+class _OverBudget(BaseException):
+    pass
+
+
+def _alarm(signum, frame):
+    raise _OverBudget()
+
+
 def impl(case):
+    """the real match() under a time budget: the number of unification records the real unifier keeps
+    is exponential in the number of commutative nodes (a pair that takes minutes and tens of GB exists
+    among 40000 random ones); cost is not part of the property, such a case is dropped and counted"""
+    import signal
+    import threading
+    if threading.current_thread() is not threading.main_thread():
+        return impl_unbounded(case)
+    old = signal.signal(signal.SIGALRM, _alarm)
+    signal.setitimer(signal.ITIMER_REAL, BUDGET_S)
+    try:
+        return impl_unbounded(case)
+    except _OverBudget:
+        return {"dropped": "real unifier over its time budget"}
+    finally:
+        signal.setitimer(signal.ITIMER_REAL, 0)
+        signal.signal(signal.SIGALRM, old)
+
+
+def impl_unbounded(case):
     import warnings
     from dagrt.expression import match
     from pymbolic import flatten
